@@ -6,6 +6,7 @@ from . import build
 CONST, VAR, ADD, SUB, MUL, DIV, NEG, SQRT, ABS, FLOOR, POISON = range(11)
 OPN = ['const', 'var', 'add', 'sub', 'mul', 'div', 'neg', 'sqrt', 'abs', 'floor', 'poison']
 RUN_DIR = os.path.join(build.BUILD, 'run')
+SHADOW_OVERRIDE = {}     # name -> double: shadows of a whole task re-run on another feasible path (set by props/common.py only)
 
 
 def hex2f(s):
@@ -90,6 +91,9 @@ class Script:
 
     def text(self, decisions=None, shadow_override=None):
         lines = self.lines
+        if SHADOW_OVERRIDE:
+            # alternative-path re-execution (props/common.py): explicit overrides (grid substitutions) win over the global ones
+            shadow_override = dict({k: v for k, v in SHADOW_OVERRIDE.items() if k in self.shadows}, **(shadow_override or {}))
         if shadow_override:
             lines = []
             for l in self.lines:
